@@ -2,9 +2,12 @@ package bkl
 
 import (
 	"bytes"
+	"errors"
 	"fmt"
+	"io"
 	"regexp"
 	"strconv"
+	"strings"
 
 	"gopkg.in/yaml.v3"
 )
@@ -49,19 +52,35 @@ func yamlUnmarshalStream(in []byte) ([]any, error) {
 	ret := []any{}
 
 	for _, s := range parts {
-		var node yaml.Node
+		// A part can still hold several documents when a document marker is
+		// not alone on its line ("--- # comment", "--- ", "---\r"): decode all
+		// of them rather than only the first.
+		dec := yaml.NewDecoder(strings.NewReader(s))
+		count := 0
 
-		err := yaml.Unmarshal([]byte(s), &node)
-		if err != nil {
-			return nil, err
+		for {
+			var node yaml.Node
+
+			err := dec.Decode(&node)
+			if errors.Is(err, io.EOF) {
+				break
+			} else if err != nil {
+				return nil, err
+			}
+
+			obj, err := yamlTranslateNode(&node)
+			if err != nil {
+				return nil, err
+			}
+
+			ret = append(ret, obj)
+			count++
 		}
 
-		obj, err := yamlTranslateNode(&node)
-		if err != nil {
-			return nil, err
+		if count == 0 {
+			// Empty document
+			ret = append(ret, nil)
 		}
-
-		ret = append(ret, obj)
 	}
 
 	return ret, nil
